@@ -1,5 +1,5 @@
 import Hm.HeaderAlgebra
-import Hm.EncodingLabels
+import Hm.EncodingLabelsB
 
 /-! src/coding.rs::decode_body_as_text, with encoding_rs's label resolution (table generated from the
     crate) and its decoders for UTF-8 and windows-1252; other encodings are not modelled -/
@@ -55,7 +55,7 @@ def normLabel (label : Bytes) : Option Bytes :=
 def forLabel (label : Bytes) : Option String :=
   match normLabel label with
   | none => none
-  | some l => (encodingLabels.find? fun e => e.1.toUTF8.toList == l).map (·.2)
+  | some l => (encodingLabelsB.find? fun e => e.1 == l).map (·.2)
 
 def utf8OfCodePoint (c : Nat) : Bytes :=
   if c < 0x80 then [c.toUInt8]
